@@ -108,12 +108,13 @@ theorem attrOfN_cases {e : BEnv} {Γ : Ctx} {m : XmlMeta} {fields : List (Str ×
 /-! ### `next_attribute` -/
 
 theorem nextAttribute_N {e : BEnv} {Γ : Ctx} (cfg : SerCfg) (m : XmlMeta) (fields : List (Str × Val))
-    (nl : Bool) (h : ∀ var ∈ m.attributeVars, AttrFactsN e Γ m fields var) :
-    nextAttribute cfg m fields nl none =
-      .ok (attrEvsN cfg m.attributeVars fields ++ nilEvs nl) := by
+    (nl : Bool) (xt : Option QN) (h : ∀ var ∈ m.attributeVars, AttrFactsN e Γ m fields var) :
+    nextAttribute cfg m fields nl xt =
+      .ok (attrEvsN cfg m.attributeVars fields ++ typeEvs xt ++ nilEvs nl) := by
   unfold nextAttribute
   rw [mapM_ok _ (fun var => (attrTriples cfg fields var).map fun t => Ev.attr t.1 t.2.1)]
-  · simp only [bind, Except.bind, pure, Except.pure, List.append_nil, nilEvs, attrEvsN, List.flatMap]
+  · simp only [bind, Except.bind, pure, Except.pure, nilEvs, attrEvsN, List.flatMap, typeEvs]
+    cases xt <;> rfl
   · intro var hvar
     cases h var hvar with
     | attr hf =>
@@ -423,21 +424,38 @@ theorem validateFixed_same (e : Env) (vc : VarCore) (p : PVal) (h : vc.default =
     validateFixed e vc (.prim p) = .ok () := by
   cases p <;> simp [validateFixed, h]
 
-theorem bindAttrs_N {e : BEnv} {Γ : Ctx} (pcfg : ParserConfig) (cfg : SerCfg) (m : XmlMeta)
-    (fields : List (Str × Val)) (nsmap : NsMap) (nl : Bool)
+/-- a fold whose step leaves the accumulator alone on every element of the list -/
+theorem foldlM_skip {α β : Type} (step : α → β → Except Err α) (P : β → Prop)
+    (hstep : ∀ acc kv, P kv → step acc kv = .ok acc) (acc : α) :
+    ∀ (X : List β), (∀ kv ∈ X, P kv) → X.foldlM step acc = .ok acc := by
+  intro X
+  induction X with
+  | nil => intro _; rfl
+  | cons kv rest ih =>
+    intro h
+    rw [List.foldlM_cons, hstep acc kv (h kv (by simp))]
+    exact ih (fun kv hkv => h kv (by simp [hkv]))
+
+theorem bindAttrs_NX {e : BEnv} {Γ : Ctx} (pcfg : ParserConfig) (cfg : SerCfg) (m : XmlMeta)
+    (fields : List (Str × Val)) (nsmap : NsMap) (X : List (QN × Str))
     (h : ∀ var ∈ m.attributeVars, AttrFactsN e Γ m fields var)
     (hnd : (m.attributeVars.map (·.name)).Nodup)
-    (hnilA : m.findAttribute xsiNil = none) (hany : nl = true → m.anyAttributes = []) :
-    bindAttrs e pcfg m (attrPairsN cfg m.attributeVars fields ++ nilAttr nl) nsmap =
+    (hX : ∀ kv ∈ X, m.findAttribute kv.1 = none ∧ m.findAnyAttributes kv.1 = none ∧
+      targetUri kv.1 = some xsiNs) :
+    bindAttrs e pcfg m (attrPairsN cfg m.attributeVars fields ++ X) nsmap =
       .ok (attrParamsN cfg m.attributeVars fields, 0) := by
   unfold bindAttrs
   rw [foldlM_append_ok (foldlM_attrN_gen (e := e) (Γ := Γ) (m := m) (fields := fields) cfg _ ?_ ?_ ?_
     m.attributeVars [] h hnd (fun _ _ => rfl))]
-  · cases nl
-    · simp [nilAttr]; rfl
-    · have hns : targetUri xsiNil = some xsiNs := by decide
-      simp [nilAttr, hnilA, XmlMeta.findAnyAttributes, hany rfl, findByNamespace, hns, pure, Except.pure]
-      rfl
+  · -- control attributes (`xsi:type`, `xsi:nil`) that no var takes are skipped
+    apply foldlM_skip _ (fun kv => m.findAttribute kv.1 = none ∧ m.findAnyAttributes kv.1 = none ∧
+      targetUri kv.1 = some xsiNs) ?_ _ X hX
+    intro acc kv hkv
+    obtain ⟨h1, h2, h3⟩ := hkv
+    obtain ⟨P, w⟩ := acc
+    obtain ⟨k, v⟩ := kv
+    simp only at h1 h2 h3
+    simp [h1, h2, h3, pure, Except.pure]
   · intro P var d s hf hi ha hfresh
     obtain ⟨t, hty, hc⟩ := attrOfN_cases hf ha
     rcases hc with ⟨htok, p, hv, hpt, _, _, rfl⟩ | ⟨htok, ys, _, hv, hys, _, rfl⟩
